@@ -100,6 +100,8 @@ pub struct EwEnv {
     pub fair_delta: u64,
     /// permanent blackout choice: from some round of the window on, all datagrams (mask 1 = to server, 2 = to clients) are lost
     pub blackouts: &'static [u8],
+    /// lengths (in rounds) a chosen blackout may have; empty = it lasts until the end of the run. The length is a free choice.
+    pub blackout_lens: &'static [usize],
     /// stop when every client object is finished (terminal seen or never connected) and the server tracks nothing
     pub stop_when_done: bool,
     pub fuel: u64,
@@ -112,10 +114,10 @@ pub struct EwEnv {
 
 impl EwEnv {
     pub fn name(&self) -> String {
-        format!("f{}{}t{:?}d{:?}fd{}ls{}.{}dev{}+{}max{}app{}{}bl{}", self.fates.len(), if self.fates_free { "free" } else { "" }, self.fate_types, self.deltas, self.fair_delta, self.lose_syn, self.lose_synack, self.dev_start, self.dev_rounds, self.max_rounds, self.app_menu.len(), if self.skip_choice { "S" } else { "" }, self.blackouts.len())
+        format!("f{}{}t{:?}d{:?}fd{}ls{}.{}dev{}+{}max{}app{}{}bl{}", self.fates.len(), if self.fates_free { "free" } else { "" }, self.fate_types, self.deltas, self.fair_delta, self.lose_syn, self.lose_synack, self.dev_start, self.dev_rounds, self.max_rounds, self.app_menu.len(), if self.skip_choice { "S" } else { "" }, self.blackouts.len()) + &(if self.blackout_lens.is_empty() { String::new() } else { format!("x{:?}", self.blackout_lens) })
     }
     pub fn basic(dev_rounds: usize, max_rounds: usize) -> Self {
-        Self { fates: DF_BASIC, fate_types: &[], fates_free: false, deltas: &[100, 0, 1000, 2000], dev_start: 0, dev_rounds, max_rounds, app_menu: vec![], skip_choice: false, fair_delta: 100, blackouts: &[], stop_when_done: true, fuel: 2_000_000, long_hold: 12, lose_syn: 0, lose_synack: 0 }
+        Self { fates: DF_BASIC, fate_types: &[], fates_free: false, deltas: &[100, 0, 1000, 2000], dev_start: 0, dev_rounds, max_rounds, app_menu: vec![], skip_choice: false, fair_delta: 100, blackouts: &[], blackout_lens: &[], stop_when_done: true, fuel: 2_000_000, long_hold: 12, lose_syn: 0, lose_synack: 0 }
     }
 }
 
@@ -188,10 +190,12 @@ pub fn run_ew(cfg: &EwCfg, script: &[EwOp], env: &EwEnv, ch: &mut Chooser) -> Ew
     let mut counters: std::collections::HashMap<(usize, usize, u8), u32> = Default::default();
     let mut done_ops: Vec<bool> = vec![false; script.len()];
     let mut blackout: Option<(usize, u8)> = None;
+    let mut blackout_end = usize::MAX;
     if !env.blackouts.is_empty() {
         let n = env.blackouts.len() * env.dev_rounds;
         let k = if n + 1 <= 255 { ch.choose(n + 1) } else { let b = ch.choose(env.blackouts.len() + 1); if b == 0 { 0 } else { 1 + ch.free(env.dev_rounds) * env.blackouts.len() + (b - 1) } };
         if k > 0 { let k = k - 1; blackout = Some((env.dev_start + k / env.blackouts.len(), env.blackouts[k % env.blackouts.len()])); }
+        if blackout.is_some() && !env.blackout_lens.is_empty() { blackout_end = blackout.unwrap().0 + env.blackout_lens[ch.free(env.blackout_lens.len())]; }
     }
     tr.blackout = blackout;
     let mut quiet = 0; let mut lost_syn = 0usize; let mut lost_synack = 0usize;
@@ -279,7 +283,7 @@ pub fn run_ew(cfg: &EwCfg, script: &[EwOp], env: &EwEnv, ch: &mut Chooser) -> Ew
             let by_step = k < n_steps;
             let frame = Frame::read(&bytes);
             let to_server = dst == saddr();
-            let blacked = match blackout { Some((r0, mask)) => round >= r0 && ((to_server && mask & 1 != 0) || (!to_server && mask & 2 != 0)), None => false };
+            let blacked = match blackout { Some((r0, mask)) => round >= r0 && round < blackout_end && ((to_server && mask & 1 != 0) || (!to_server && mask & 2 != 0)), None => false };
             let eligible = env.fate_types.is_empty() || bytes.first().map_or(false, |b| env.fate_types.contains(b));
             let scripted_loss = match bytes.first() { Some(0) if lost_syn < env.lose_syn => { lost_syn += 1; true } Some(1) if lost_synack < env.lose_synack => { lost_synack += 1; true } _ => false };
             let fate = if blacked || scripted_loss { DFate::Drop } else if dev && env.fates.len() > 1 && eligible {
